@@ -252,7 +252,62 @@ def csv_mem_vs_stream(ctx, vlib):
         if a != b and len(failing) < 20:
             failing.append(dict(driver="csv", case=cases[i + 1], implementation=b[:300], model=a[:300], judge="FAIL",
                                 why="the same CSV bytes load differently from a stream than from memory"))
-    return dict(evaluations=len(cases), failing=failing, classes=classes)
+    evaluations = len(cases)
+    # small chunk sizes (hook BITSERIALIZER_VERIF_CSV_CHUNK_SIZE, /repo b276b03): every alignment of quoted fields, escaped
+    # quotes, separators and line breaks relative to the chunk boundary with short documents; three-way comparison
+    # memory load / stream load of the hook build / extracted stream model with the same K (csv_load_stream K, C09)
+    model = csv_common.drivers(vlib)[1]
+    if hook_csv_present(vlib):
+        for K in (32, 64):
+            implk = vlib.build_cpp("drv_csv_k%d" % K, ["drv_csv.cpp"], extra=vlib.repo_sources("src/csv/*.cpp") + ["-DBITSERIALIZER_VERIF_CSV_CHUNK_SIZE=%d" % K])
+            docs = []
+            fields = ["a", "", "x,y", 'q"q', "line\nbreak", "cr\r\nlf", "\u00e9\u4e16\U0001F600", " sp ", '""']
+            for total in (list(range(K - 6, K + 7)) + list(range(2 * K - 6, 2 * K + 7)) + [3 * K - 1, 3 * K, 3 * K + 1] if thorough
+                          else [K - 2, K - 1, K, K + 1, K + 2, 2 * K - 1, 2 * K, 2 * K + 1, 3 * K]):
+                for eol in ("\r\n", "\n"):
+                    for final in (True, False):
+                        for rep in range(6 if thorough else 3):
+                            rows = [["h1", "h2"]]
+                            while True:
+                                rows.append([rng.choice(fields), rng.choice(fields)])
+                                text = eol.join(",".join(csv_common_quote(f) for f in r) for r in rows) + (eol if final else "")
+                                if len(text.encode()) >= total - 12:
+                                    break
+                            pad = total - len(text.encode())
+                            if pad < 0:
+                                continue
+                            rows[-1][0] = rows[-1][0] + "p" * pad
+                            text = eol.join(",".join(csv_common_quote(f) for f in r) for r in rows) + (eol if final else "")
+                            docs.append(text.encode())
+            keys = "6831,6832"
+            cm = ["csvr mem 2c %s %s" % (keys, d.hex()) for d in docs]
+            cs = ["csvr stream%d 2c %s %s" % (K, keys, d.hex()) for d in docs]
+            om_ = vlib.run_driver(impl, cm)
+            os_ = vlib.run_driver(implk, cs)
+            ok_ = vlib.run_driver(model, cs)
+            evaluations += 3 * len(docs)
+            for c, a, b, m in zip(cs, om_, os_, ok_):
+                key = "csv K=%d -> %s" % (K, "equal" if a == b == m else "DIFFERENT")
+                classes[key] = classes.get(key, 0) + 1
+                if not (a == b == m) and len(failing) < 20:
+                    failing.append(dict(driver="csv", case=c, implementation=b[:300], model=m[:300], memory=a[:300], judge="FAIL" if a != b else "DIFF",
+                                        why="chunk size %d: stream load / memory load / stream model disagree" % K))
+    return dict(evaluations=evaluations, failing=failing, classes=classes)
+
+
+def csv_common_quote(f):
+    """minimal RFC 4180 quoting"""
+    if any(ch in f for ch in ',"\r\n') or f == "":
+        return '"' + f.replace('"', '""') + '"'
+    return f
+
+
+def hook_csv_present(vlib):
+    import os
+    try:
+        return "BITSERIALIZER_VERIF_CSV_CHUNK_SIZE" in open(os.path.join(vlib.REPO, "src", "csv", "csv_readers.h"), errors="replace").read()
+    except OSError:
+        return False
 
 
 def replay(rp, vlib):
